@@ -157,6 +157,38 @@ fn operand(r: &mut Rng, md: &[u64], bits: usize) -> Vec<u64> {
     big::limbs(&(v % &bm), l)
 }
 
+/// Composite modulus m = x * y (both odd) with operands a = x * s, b = y * t: a * b is a non-zero
+/// multiple of m, so the unreduced Montgomery result is exactly m and the final conditional
+/// subtraction decides on equality.
+fn zero_product(r: &mut Rng, bits: usize) -> Option<(Vec<u64>, Vec<u64>, Vec<u64>)> {
+    if bits < 4 {
+        return None;
+    }
+    let l = gen::nlimbs(bits);
+    let xb = r.range(2, bits - 2);
+    let yb = bits - xb;
+    let mut x = big::big(&gen::with_bit_len(r, xb, xb.max(1)));
+    let ybl = r.range(2, yb);
+    let mut y = big::big(&gen::with_bit_len(r, ybl, yb.max(2)));
+    if !x.bit(0) {
+        x += 1u8;
+    }
+    if !y.bit(0) {
+        y += 1u8;
+    }
+    let md = &x * &y;
+    if !big::fits(&md, bits) || md < BigUint::from(9u8) {
+        return None;
+    }
+    let s = (big::big(&gen::hostile(r, bits)) % &y).max(BigUint::one());
+    let t = (big::big(&gen::hostile(r, bits)) % &x).max(BigUint::one());
+    let (a, b) = if r.chance(1, 4) { (x.clone(), x.clone()) } else { (&x * s % &md, &y * t % &md) };
+    if a.is_zero() || b.is_zero() {
+        return None;
+    }
+    Some((big::limbs(&a, l), big::limbs(&b, l), big::limbs(&md, l)))
+}
+
 fn workload(m: &mut Mon) {
     // slice level, N = 1..=16
     for n in 1..=16usize {
@@ -178,6 +210,22 @@ fn workload(m: &mut Mon) {
             }
             if m.time_up() {
                 return;
+            }
+        }
+        for _ in 0..m.iters(60) {
+            if !m.keep() {
+                continue;
+            }
+            if let Some((a, b, md)) = zero_product(&mut r, bits) {
+                m.case("slice", bits, vec![au(&a), au(&b), au(&md)]);
+                // squares: m = x^2 with a = b = x comes from the (x, x) branch when y == x is not
+                // guaranteed, so also feed a perfect-square modulus explicitly
+                let x = big::big(&gen::with_bit_len(&mut r, (bits / 2).max(2) - 1, bits / 2 + 1)) | BigUint::one();
+                let sq = &x * &x;
+                if big::fits(&sq, bits) && sq >= BigUint::from(9u8) {
+                    let l = gen::nlimbs(bits);
+                    m.case("slice", bits, vec![au(&big::limbs(&x, l)), au(&big::limbs(&x, l)), au(&big::limbs(&sq, l))]);
+                }
             }
         }
     }
@@ -206,6 +254,11 @@ fn workload(m: &mut Mon) {
             }
             if m.time_up() {
                 return;
+            }
+        }
+        for _ in 0..m.iters(40) {
+            if let Some((a, b, md)) = zero_product(&mut r, bits) {
+                m.case("uint", bits, vec![au(&a), au(&b), au(&md)]);
             }
         }
         // modulus with the top limb equal to the mask (non-aligned widths)
